@@ -27,6 +27,13 @@ fn compute_unsubscribe_packet_length_properties5(packet: &UnsubscribePacket) -> 
         total_remaining_length += filter.len();
     }
 
+    // check before narrowing: a length of 2 ^ 32 or more would wrap around and pass every later size check
+    if total_remaining_length > MAXIMUM_VARIABLE_LENGTH_INTEGER {
+        let message = "compute_unsubscribe_packet_length_properties5 - vli value exceeds the protocol maximum (2 ^ 28 - 1)";
+        error!("{}", message);
+        return Err(GneissError::new_encoding_failure(message));
+    }
+
     Ok((total_remaining_length as u32, unsubscribe_property_section_length as u32))
 }
 
@@ -73,6 +80,13 @@ fn compute_unsubscribe_packet_length_properties311(packet: &UnsubscribePacket) -
 
     for filter in &packet.topic_filters {
         total_remaining_length += filter.len();
+    }
+
+    // check before narrowing: a length of 2 ^ 32 or more would wrap around and pass every later size check
+    if total_remaining_length > MAXIMUM_VARIABLE_LENGTH_INTEGER {
+        let message = "compute_unsubscribe_packet_length_properties311 - vli value exceeds the protocol maximum (2 ^ 28 - 1)";
+        error!("{}", message);
+        return Err(GneissError::new_encoding_failure(message));
     }
 
     Ok(total_remaining_length as u32)
